@@ -179,6 +179,14 @@ class Emitter:
             pass
         elif op in ("tanh", "erf"):
             self.axioms.append("(assert (and (< %s 1.0) (> %s (- 1.0))))" % (name, name))
+            # sound sign/size facts: odd, concave on [0,oo): f(a) >= f(1) min(a,1), |f(a)| <= f'(0) |a|
+            a = self.ref(m.args[0])
+            lo, slope = ("0.84", "1.1284") if op == "erf" else ("0.76", "1.0")
+            self.axioms.append(
+                "(assert (and (=> (>= %s 0.0) (and (>= %s 0.0) (<= %s (* %s %s)) (=> (<= %s 1.0) (>= %s (* %s %s))) (=> (>= %s 1.0) (>= %s %s))))"
+                " (=> (<= %s 0.0) (and (<= %s 0.0) (>= %s (* %s %s)) (=> (>= %s (- 1.0)) (<= %s (* %s %s))) (=> (<= %s (- 1.0)) (<= %s (- %s)))))))"
+                % (a, name, name, slope, a, a, name, lo, a, a, name, lo, a, name, name, slope, a, a, name, lo, a, a, name, lo)
+            )
         return name
 
     def script(self, asserts, logic="QF_NRA", get_values=None, produce_models=False, check="(check-sat)"):
